@@ -12,6 +12,18 @@ import (
 type nativeObj struct{ v any }
 
 func init() {
+	// sync/atomic integers (used by harness filesystems): the value is the last field
+	atomicField := func(a []value) *value {
+		s := (*a[0].(*value)).(structure)
+		return &s[len(s)-1]
+	}
+	intrinsics["(*sync/atomic.Int64).Add"] = func(fr *frame, a []value) value {
+		c := atomicField(a)
+		*c = (*c).(int64) + a[1].(int64)
+		return *c
+	}
+	intrinsics["(*sync/atomic.Int64).Load"] = func(fr *frame, a []value) value { return *atomicField(a) }
+	intrinsics["(*sync/atomic.Int64).Store"] = func(fr *frame, a []value) value { *atomicField(a) = a[1]; return nil }
 	// EncodeRune writes into its argument: done on the interpreter's slice
 	intrinsics["unicode/utf8.EncodeRune"] = func(fr *frame, a []value) value {
 		p := a[0].([]value)
